@@ -26,7 +26,8 @@ RULE = ("random component DAGs (3-12 glyphs quick, up to 40 thorough; depth <= 4
         "non-uniform/shear/rot90/mirror-x/mirror-y/point-reflection/mirror+scale/general; coordinates from integers, x.5, quarters, "
         "64ths, negatives, +-16000; line/cubic/quadratic contours starting on or off curve; widths incl. x.5) x both UFO libraries x "
         "roundTolerance {None,0,0.25,0.5} x cffVersion {1,2} x optimizeCFF {0,1,2}. Non-trivial = the font has a component whose "
-        "matrix is not the identity 2x2; distinct by generated content.")
+        "matrix is not the identity 2x2; distinct by generated content."
+        " A third of the compiled cases carry outline-preserving lib pre-filters (flattenComponents, decomposeTransformedComponents, propagateAnchors).")
 ASSUMPTIONS = ["IEEE-double evaluation of the affine maps is exact on the generated dyadic inputs",
                "fontTools charstring compile/decompile returns the absolute rounded points it was given"]
 TRUSTED_EXTRA = ["harness/geom.py segment-level reference renderer (independent restatement used for quadratic glyphs)"]
